@@ -705,5 +705,9 @@ def run_one(arg):
         return rec.result()
     except core.Violation as v:
         return rec.result(v)
+    except core.INTERPRETATION_ERRORS as e:
+        if not rec.props:
+            raise
+        return rec.result(core.uninterpretable(rec, e))
     finally:
         seams.uninstall_simset()
